@@ -196,6 +196,29 @@ Proof.
   destruct H as (Hn & e & _ & H1 & H2 & H3 & H4). split; [exact Hn|]. exists e. repeat split; assumption.
 Qed.
 
+(* the issuer designation of a certificate is outside its signed bytes. Whatever was received
+   before - in particular the same to-be-signed bytes and signature under another designation,
+   under which they may well verify (self-signed, or issued in another PKI) - a frame is not
+   delivered when every certificate c its signer field can designate is not itself a configured
+   root and the oracle rejects c's signature under the key of every certificate that c's issuer
+   field designates. No oracle fact under any other key (the certificate's own included) helps. *)
+Lemma relabelled_issuer_dropped ops fs vs vo nh body m :
+  Forall is_rx fs ->
+  (forall c, signer_names (m_signer m) c ->
+             ~ In c (configured_roots ops) /\
+             forall i, cissuer c = IssDigest (hash8 i) -> sig_ok (ckey i) (ctbs c) (csig c) = false) ->
+  forall p, snd (rx (final init_station (ops ++ fs)) true vs vo nh body m) <> RDeliver p.
+Proof.
+  intros Hf Hno p H.
+  destruct (rx (final init_station (ops ++ fs)) true vs vo nh body m) as [sn' r] eqn:E. cbn in H. subst r.
+  apply (history_independent ops fs) in E; [|exact Hf].
+  destruct E as (_ & e & Hn & Ha & _).
+  destruct (Hno _ Hn) as [Hr Hs].
+  inversion Ha as [c Hin|c i j Hok _ _]; subst.
+  - exact (Hr Hin).
+  - destruct Hok as (Hi & _ & Hsig). rewrite (Hs _ Hi) in Hsig. discriminate.
+Qed.
+
 (* "altered in any bit => rejected" is the reduction above plus an assumption about ECDSA,
    made explicit here: if the oracle accepts (k, t, s) only when the holder of k signed t,
    then a delivered payload was signed, byte for byte, by the holder of the ticket's key *)
